@@ -1020,11 +1020,17 @@ impl Property for C14 {
         // (a) wire log of a simulated conversation read back through read_command
         let mut crng = Rng::stream(run_seed, "config");
         let use_pdr = crng.chance(1, 3);
+        // one third of the scripts use names that look like SMT-LIB literals (`#b01`, `#x1a`, `2.5`):
+        // the writer has to quote them, and the reader must not take `|#b01|` for a literal
+        let literal_names = crng.chance(1, 3);
+        crate::sgen::sysgen::set_name_stress(literal_names, false);
         let sys = if use_pdr {
-            gen_bounded_system(&mut rng, 7, 3, true, 8, |_| {})
+            gen_bounded_system(&mut rng, 7, 3, true, 8, |c| c.quoted_names = c.quoted_names || literal_names)
         } else {
-            gen_system(&mut rng, 7, 3, false, |_| {})
+            gen_system(&mut rng, 7, 3, false, |c| c.quoted_names = c.quoted_names || literal_names)
         };
+        crate::sgen::sysgen::set_name_stress(false, false);
+        acc.count("probe.script_with_literal_looking_names", literal_names as u64);
         let scn = McScenario {
             sys,
             cfg: McCfg {
